@@ -11,7 +11,7 @@ from . import c09
 
 ID = "C10"
 LEVEL = "fault_enumeration"
-RULE = ("Three families, all executed under the deterministic scheduler, which owns every lock the "
+RULE = ("Four families, all executed under the deterministic scheduler, which owns every lock the "
         "library creates and reports lock ownership and deadlock exactly. (A) fault enumeration, "
         "complete per class ('exhaustive': true): every mutator and read operation x fault {unparsable "
         "file content, valid JSON of the other root kind, truncated JSON, rejected value, OSError "
@@ -22,7 +22,13 @@ RULE = ("Three families, all executed under the deterministic scheduler, which o
         "the operation returned or raised no lock is owned by its thread, the second thread completes "
         "all its operations (no deadlock), nothing is owned at the end. (B) Hypothesis-generated "
         "programs mixing load-and-save mutators, clear/reset, object construction (class lock) and "
-        "buffered mode, all single-preemption schedules / all preemption sites: no deadlock, no leak. "
+        "buffered mode, operations taking another collection as operand (a.update(b) next to "
+        "b.update(a)) and buffered contexts entered/left by the threads themselves while others "
+        "operate; all single-preemption schedules / all preemption sites: no deadlock, no leak. "
+        "(D) the same two ingredients as fixed programs per class (cross operands unbuffered and "
+        "buffered; a thread leaving the backend-wide context during another thread's operation; a "
+        "per-object context next to a writer on a second object; two class-wide contexts), every "
+        "single-preemption schedule. "
         "(C) retarget: x.filename = other interleaved (every single preemption) with operations "
         "through objects still bound to the old file and objects bound to the new one: every "
         "operation succeeds and lands in the right file. Non-trivial = an injected fault actually "
@@ -53,6 +59,7 @@ def shards(tier):
     reps = 1 if tier == "quick" else 4
     s += [{"part": "B", "cls": c.name, "rep": r} for c in JSON_ALL for r in range(reps)]
     s += [{"part": "C", "cls": c.name} for c in JSON_ALL]
+    s += [{"part": "D", "cls": c.name} for c in JSON_ALL]
     return s
 
 
@@ -175,6 +182,30 @@ def draw_program_b(draw, ci):
         p["threads"].append([{"h": 0, "m": "construct", "a": [0]}])
     if ci.buffered and draw(st.booleans()):
         p["buffered"] = {"cap": draw(st.sampled_from([None, 0, 1, 30]))}
+    nroots = sum(1 for h in p["handles"] if "file" in h)
+    # a second file's object as an OPERAND: the operation reads another collection while it holds
+    # its own collection's lock (a.update(b) next to b.update(a))
+    if draw(st.integers(0, 2)) == 0:
+        p["handles"].append({"file": 1})
+        p["kinds"].append(ci.kind)
+        other = len(p["handles"]) - 1
+        m = "update" if ci.kind == "dict" else "extend"
+        pairs = [(0, other), (other, 0)]
+        for ti, t in enumerate(p["threads"][:2]):
+            a, b = pairs[ti]
+            t.insert(draw(st.integers(0, len(t))), {"h": a, "m": m, "a": [{"$h": b}]})
+        p["cross_operands"] = True
+    # buffered contexts entered and left by the threads themselves while others operate
+    if ci.buffered and draw(st.integers(0, 2)) == 0:
+        for t in p["threads"]:
+            c = draw(st.integers(0, 3))
+            if c == 0 and p.get("buffered"):
+                t.insert(draw(st.integers(0, len(t))), {"h": 0, "m": "ctx_exit_main", "a": []})
+            elif c == 1:
+                i = draw(st.integers(0, len(t)))
+                t.insert(i, {"h": draw(st.integers(0, nroots - 1)), "m": draw(st.sampled_from(["ctx_enter_obj", "ctx_enter_cls"])), "a": []})
+                t.insert(draw(st.integers(i + 1, len(t))), {"h": 0, "m": "ctx_exit_own", "a": []})
+        p["thread_contexts"] = True
     p["property"] = ID
     return p
 
@@ -204,6 +235,32 @@ def program_c(ci):
             "handles": [{"file": 0}, {"file": 0}, {"file": 1}], "kinds": [kind] * 3,
             "threads": [[dict(w("x0"), h=0), {"h": 0, "m": "set_filename", "a": [1]}, dict(w("x1"), h=0)],
                         [dict(w("y"), h=1), dict(w("z"), h=2), dict(w("y2"), h=1)]]}
+
+
+def programs_d(ci):
+    """Fixed programs: buffered contexts entered/left by THREADS while other threads operate, and
+    operations that take another collection as operand in both directions."""
+    kind = ci.kind
+    d = {"a": 1, "n": {"x": 1}} if kind == "dict" else [1, {"x": 1}]
+    w = (lambda k: {"m": "setitem", "a": enc([k, {"n": [1]}])}) if kind == "dict" else \
+        (lambda k: {"m": "append", "a": enc([{k: [1]}])})
+    base = {"property": ID, "class": ci.name, "docs": [enc(d), enc(d)], "root_kinds": [kind, kind],
+            "handles": [{"file": 0}, {"file": 0}, {"file": 1}], "kinds": [kind] * 3}
+    m = "update" if kind == "dict" else "extend"
+    out = [("cross_operands", dict(base, threads=[[{"h": 0, "m": m, "a": [{"$h": 2}]}, dict(w("p"), h=0)],
+                                                  [{"h": 2, "m": m, "a": [{"$h": 0}]}]]))]
+    if ci.buffered:
+        out.append(("cross_operands_buffered", dict(out[0][1], buffered={"cap": None})))
+        out.append(("exit_main_during_op", dict(base, buffered={"cap": None}, threads=[
+            [dict(w("p"), h=0), dict(w("q"), h=2)], [{"h": 0, "m": "ctx_exit_main", "a": []}, dict(w("r"), h=1)]])))
+        out.append(("own_obj_context_next_to_writer", dict(base, threads=[
+            [{"h": 0, "m": "ctx_enter_obj", "a": []}, dict(w("p"), h=0), {"h": 0, "m": "ctx_exit_own", "a": []}],
+            [dict(w("q"), h=1), dict(w("r"), h=2)]])))
+        out.append(("two_class_contexts", dict(base, threads=[
+            [{"h": 0, "m": "ctx_enter_cls", "a": []}, dict(w("p"), h=0), {"h": 0, "m": "ctx_exit_own", "a": []}],
+            [{"h": 2, "m": "ctx_enter_cls", "a": []}, dict(w("q"), h=2), {"h": 0, "m": "ctx_exit_own", "a": []},
+             dict(w("r"), h=1)]])))
+    return out
 
 
 def judge_c(program, sc, res):
@@ -246,6 +303,25 @@ def run_shard(spec, seed, tier, active):
                             "exhaustive_1p": exhaustive})
         return acc.result()
 
+    if spec["part"] == "D":
+        for name, program in programs_d(ci):
+            T = len(program["threads"])
+            base, bres, ones, exhaustive = conc.one_preemption_schedules(
+                program, T, full_limit=400 if tier == "quick" else 4000)
+            results = bres + sched.explore(program, ones)
+            ph = h64("D", ci.name, name)
+            for sc, res in zip(base + ones, results):
+                ov = conc.overlapping(res)
+                acc.case([h64(ph, str(s[3])) for s in ov], None, {"D.executions": 1, "D." + name: 1})
+                d = judge_b(program, sc, res)
+                if d is not None and not any(f["case"].get("name") == name for f in acc.failures):
+                    acc.failures.append({"case": {"property": ID, "engine": "sched", "part": "D", "name": name,
+                                                  "program": program, "schedule": sc}, "desc": d})
+            if len(acc.samples) < 2:
+                acc.samples.append({"part": "D", "name": name, "program": program["threads"],
+                                    "schedules": len(results), "exhaustive_1p": exhaustive})
+        return acc.result()
+
     n = 2 if tier == "quick" else 12
 
     def one(data):
@@ -257,7 +333,9 @@ def run_shard(spec, seed, tier, active):
         fail = None
         for sc, res in zip(base + ones, results):
             ov = conc.overlapping(res)
-            acc.case([h64(ph, str(s[3])) for s in ov], None, {"B.executions": 1})
+            acc.case([h64(ph, str(s[3])) for s in ov], None,
+                     {"B.executions": 1, "B.with_cross_operands": int(bool(program.get("cross_operands"))),
+                      "B.with_thread_contexts": int(bool(program.get("thread_contexts")))})
             d = judge_b(program, sc, res)
             if d is not None and fail is None:
                 fail = (sc, d)
